@@ -137,12 +137,12 @@ def run():
         w = 4 if thorough else 2
         t0 = time.time()
         jobs = {
-            "build": lambda: vf.go_test_compile(ov, PKG, testbin),
             "buildrace": lambda: vf.go_test_compile(ov, PKG, racebin, race=True),
             "mc": lambda: vf.tlc(SPEC, "OAuthGrant", mc_cfg, sd, workers=8 if thorough else 4, timeout=1500),
             "broken": lambda: vf.tlc(SPEC, "OAuthGrant", "OAuthGrant_MC_broken.cfg", sd, workers=w, timeout=600, extra=["-continue"]),
             "genasis": lambda: gen(sd, "OAuthGrant_Gen2_asis.cfg"),
         }
+        jobs["build"] = lambda: vf.go_test_compile(ov, PKG, testbin)
         for g in gens:
             jobs["gen:" + g] = (lambda g=g: gen(sd, g, workers=1))
         R = par(jobs)
